@@ -120,6 +120,15 @@ func (c04) Gen(r *rand.Rand, tier string, run int) *core.Case {
 			c.Params["conns"] = 2
 		}
 		kinds = []string{"relay", "relay", "relay", "echo", "noarg"}
+		if c.Params["lend"] == 1 && c.Params["lend_same"] == 0 && r.IntN(3) == 0 {
+			// the object lent to the service's first object comes from a
+			// client that does nothing else on its connection - no call, no
+			// subscription, no other object - and that takes it back at some
+			// moment: calls relayed to it afterwards still get one outcome
+			c.Params["idle_lender"] = 1
+			c.Params["idle_lender_delay"] = r.IntN(400)
+			c.Params["lent_refuses"] = 0
+		}
 	}
 	if c.Batch == "fault-free" && r.IntN(6) == 0 {
 		// a crowd: more calls in flight than the queues between a connection
@@ -264,6 +273,10 @@ type c04state struct {
 	w       *World
 	raw     *Raw
 	rawSent []c04raw
+	// (idle lender) what takes the lent object back, and when it was invoked
+	mu        sync.Mutex
+	takeBack  func()
+	takenBack int64
 }
 
 type c04raw struct {
@@ -342,6 +355,42 @@ func (c04) Run(c *core.Case, env *core.Env) {
 			if c.P("lend_same", 0) == 1 && o == 1 {
 				cn, lp = 0, firstLent
 				zzsim.SetNode("client0")
+			} else if c.P("idle_lender", 0) == 1 && o == 0 {
+				zzsim.SetNode("harness")
+				var lcl bus.Client
+				var lpx probe.ProbeProxy
+				lcl, err = Connect("lender", "u", "p")
+				if err == nil {
+					lpx, err = ProbeProxy(lcl, w.ServiceID, w.ObjIDs[0])
+				}
+				if err == nil {
+					zzsim.SetNode("lender")
+					idleRef := lpx.Proxy().ProxyService(nil)
+					lp, err = probe.CreateLent(nil, idleRef, &LentImpl{Env: env, Obj: 100})
+					if err == nil {
+						err = lpx.Lend(lp)
+					}
+					if err == nil {
+						id := lp.Proxy().ObjectID()
+						st.takeBack = func() {
+							zzsim.SetNode("lender")
+							s := zzsim.Seq()
+							st.mu.Lock()
+							st.takenBack = s
+							st.mu.Unlock()
+							if err := idleRef.Remove(id); err != nil {
+								env.Violate("setup/take-back", "%v", err)
+							}
+							env.Probe("lent-objects-taken-back-by-an-idle-lender")
+						}
+					}
+				}
+				zzsim.SetNode("harness")
+				if err != nil {
+					env.Violate("setup/lend", "idle lender: %v", err)
+					return
+				}
+				continue
 			} else {
 				lp, err = probe.CreateLent(nil, svcRef, &LentImpl{Env: env, Obj: 100 + o, RefuseEvery: c.P("lent_refuses", 0)})
 			}
@@ -412,6 +461,16 @@ func (c04) Run(c *core.Case, env *core.Env) {
 	env.Note("server up: %d objects, %d connections, %d actors", len(w.ObjIDs), nConn, len(actors))
 	env.NW.PauseFaults(false)
 	var wg sync.WaitGroup
+	if st.takeBack != nil {
+		wg.Add(1)
+		go func() {
+			defer wg.Done()
+			for j := 0; j < c.P("idle_lender_delay", 0); j++ {
+				zzsim.Yield("h.idle-lender")
+			}
+			st.takeBack()
+		}()
+	}
 	for _, a := range actors {
 		ops := byActor[a]
 		wg.Add(1)
@@ -799,6 +858,9 @@ func (c04) Check(c *core.Case, env *core.Env, res zzsim.Result, v *core.Verdict)
 				env.Probe("lent-object-error-reached-the-caller")
 			} else if !h.OK && strings.HasSuffix(h.Arg, fmt.Sprintf("@o%d", c.P("doomed_obj", -1))) && strings.Contains(h.Err, "bject not found") {
 				env.Probe("call-to-the-terminated-object-refused")
+			} else if !h.OK && h.Kind == "relay" && obj == 0 && st.takenBack != 0 && h.Ret > st.takenBack {
+				// its lender took the object back: one outcome, an error
+				env.Probe("call-relayed-to-an-object-its-lender-took-back-refused")
 			} else if !h.OK && c.Batch != "faults" && !strings.Contains(h.Err, "ancel") && !strings.Contains(h.Err, "consumer blocked") {
 				bad("answer-lost-on-healthy-connection", "%s failed although nothing is wrong with the connection and nobody cancelled it: %s", h, h.Err)
 			}
